@@ -160,7 +160,53 @@ def m_event_exc(f, case, viol):
     return any(u.startswith("emgr") and "@state.py:" in u for u in un)
 
 
-MATCHERS = {"event_exc": m_event_exc, "history": m_history, "rename_race": m_rename_race, "dirdelete_race": m_dirdelete_race}
+def m_half_transfer(f, case, viol):
+    """mechanism: the process died after the engine had created/uploaded/made a folder on the peer but before storage recorded
+    it (crash runs, variant 'resume' only); after the restart a user changes that same object or path (edit, rename, delete,
+    re-create), and the engine can no longer tell its own half-recorded copy from a user's object: it repeats the transfer or
+    parks a version as '<path>.conflicted'.  Every differing path must be related to the path of a user operation that the
+    plan applies AFTER the crash instant; crash runs in which nothing happens after the crash ('halt') are never matched."""
+    if not case.get("crash") or case.get("variant") != "resume":
+        return False
+    ci = viol.get("crash_item")
+    if ci is None:
+        return False
+    post = [it for i, it in enumerate(case.get("plan", [])) if i > ci and it and it[0] == "U"]
+    paths = _diff_paths(viol)
+    if not paths or not post:
+        return viol["cls"] == "nonquiescent" and bool(post)
+    pp = [q for u in post for q in _op_paths(u)]
+    return all(any(_related(_unconf(p), q) for q in pp) for p in paths)
+
+
+def m_crash_rename_over(f, case, viol):
+    """mechanism: on a side whose ids are paths a user renames a folder onto an existing empty folder (the rename replaces it, so
+    the id '<dst>' changes owner) and the process dies while that side's delete+rename event pair is being applied; on replay
+    the stale entry of the replaced folder is re-attached to the id now owned by the renamed folder and the peer's deletion of
+    the replaced folder is propagated to it.  Every differing path must be related to such a rename's destination."""
+    if not case.get("crash"):
+        return False
+    flav = str(case.get("cfg", {}).get("flavour", ""))
+    made = {}
+    dsts = []
+    for u in user_ops(case):
+        side, op = u[1], u[2]
+        if op == "mkdir":
+            made[(side, u[3])] = True
+        elif op in ("rmdir", "rmtree"):
+            made.pop((side, u[3]), None)
+        elif op == "rename_dir":
+            if len(flav) >= 2 and flav[side] == "p" and any(k[1] == u[4] for k in made):
+                dsts.append(u[4])
+            made.pop((side, u[3]), None)
+            made[(side, u[4])] = True
+    paths = _diff_paths(viol)
+    if not dsts or not paths:
+        return False
+    return all(any(_related(_unconf(p), q) for q in dsts) for p in paths)
+
+
+MATCHERS = {"crash_rename_over": m_crash_rename_over, "event_exc": m_event_exc, "half_transfer": m_half_transfer, "history": m_history, "rename_race": m_rename_race, "dirdelete_race": m_dirdelete_race}
 
 
 def match_one(f, case, viol):
